@@ -40,13 +40,18 @@ def build_case(rnd):
         cov = A @ A.T / nd + np.eye(nd)
         cov = 0.5 * (cov + cov.T)
         C = cov
+    # the same problem in other units: covariances (and their inverses) far from 1
+    scale = rnd.choice([1.0, 1.0, 1.0, 1e-4, 1e-10, 1e6])
+    if scale != 1.0:
+        cov = cov * scale
+        C = C * scale
     sparse = rnd.random() < 0.5
     premul = rnd.choice([True, False, None])
     dtype = rnd.choice([np.float32, np.float64])
     via = rnd.choice(["wrapper", "class"])
     Garg = sp.csr_matrix(G) if sparse else G.copy()
     kw = {}
-    desc = {"shape": [nd, nm], "sparse": sparse, "covariance": covkind, "premultiplication": premul, "dtype": np.dtype(dtype).name, "via": via}
+    desc = {"shape": [nd, nm], "sparse": sparse, "covariance": covkind, "covariance_scale": scale, "premultiplication": premul, "dtype": np.dtype(dtype).name, "via": via}
     with quiet(), np.errstate(all="ignore"):
         if via == "wrapper":
             if not (sparse and covkind == "full"):
@@ -132,6 +137,7 @@ def run(tier, seed):
         st.count(f"{'sparse' if desc['sparse'] else 'dense'}/{desc['covariance']}")
         st.count(f"premultiplication={desc['premultiplication']}")
         st.count(f"dtype={desc['dtype']}")
+        st.count(f"covariance scale={desc['covariance_scale']}")
         st.count("history=" + ">".join(desc["history"]))
         Winv = np.linalg.inv(C)
         U = np.linalg.cholesky(Winv).T
